@@ -9,7 +9,7 @@ use crate::{
     link::{AppRes, Ev},
     model::{expect_for, ref_decode_packet, ref_encode, split_frames, Expect, FrameAt, FrameKind},
     rng::Fnv,
-    scenario::{AppOp, ErrKind, StreamScenario},
+    scenario::{AppOp, ErrKind, StreamScenario, WriteEv},
 };
 
 #[derive(Clone, Debug, serde::Serialize, serde::Deserialize, PartialEq, Eq)]
@@ -193,7 +193,9 @@ pub fn analyze(sc: &StreamScenario, out: &StreamOutcome) -> Analysis {
     // accepted by the write half, not yet handed to the peer (buffered link)
     let mut staged = 0usize;
     // keep-alive frame whose reply write failed: the implementation may drop it or deliver it later
-    let mut pending_skip: Option<usize> = None;
+    // keep-alives the blocking connection may have given up because their reply could not be
+    // written (tolerated: 12.2) and that have not shown as a gap in the results yet
+    let mut skip_debt: usize = 0;
 
     let is_write_op = |op: usize| write_expect.contains_key(&op);
 
@@ -572,16 +574,24 @@ pub fn analyze(sc: &StreamScenario, out: &StreamOutcome) -> Analysis {
                             vio.push(v(clause, format!("read #{} returned {} but the stream holds only {} complete frames", facts.results.len(), short(&got), model.expects.len())));
                             dead = true;
                         } else {
-                            if pending_skip == Some(nf)
-                                && render_expect(&model.expects[nf]) != got
-                                && nf + 1 < model.expects.len()
-                                && render_expect(&model.expects[nf + 1]) == got
-                            {
-                                // the keep-alive whose reply could not be written was dropped
-                                nf += 1;
-                                facts.probe("keepalive_dropped_after_write_error");
+                            // (the dropped keep-alive may be followed by identical ones: the gap
+                            // then shows at the end of that run of keep-alives, not at once)
+                            if skip_debt > 0 && render_expect(&model.expects[nf]) != got {
+                                let mut j = 0usize;
+                                while j < skip_debt && nf + j < model.expects.len() && is_ka(&model.expects[nf + j]) {
+                                    j += 1;
+                                    if nf + j < model.expects.len() && render_expect(&model.expects[nf + j]) == got {
+                                        // the keep-alives whose replies could not be written were dropped
+                                        nf += j;
+                                        skip_debt -= j;
+                                        facts.probe("keepalive_dropped_after_write_error");
+                                        break;
+                                    }
+                                }
                             }
-                            pending_skip = None;
+                            if !is_ka(&model.expects[nf]) {
+                                skip_debt = 0;
+                            }
                             let exp = &model.expects[nf];
                             if *exp == Expect::Unmodelled {
                                 facts.unmodelled = true;
@@ -673,11 +683,20 @@ pub fn analyze(sc: &StreamScenario, out: &StreamOutcome) -> Analysis {
                             // reported through Ev::Budget
                         } else if consume_err(&mut injected_r, kind) {
                             facts.probe("transient_error_surfaced");
+                            // a blocking socket's read timeout is how a quiet link looks there:
+                            // same rule as for the async connection's Timeout below
+                            if sc.imp == crate::scenario::Imp::Blocking && (kind == "WouldBlock" || kind == "TimedOut") {
+                                withheld_check(&model, nf, skip_debt, delivered, "the transport's read timeout", &mut vio, &mut facts);
+                            }
                         } else if consume_err(&mut injected_w, kind) {
                             facts.probe("reply_write_error_surfaced");
-                            if nf < model.expects.len() && model.ends[nf] <= delivered {
-                                if let Expect::Pkt { keepalive: true, .. } = model.expects[nf] {
-                                    pending_skip = Some(nf);
+                            let at = nf + skip_debt;
+                            if at < model.expects.len() && model.ends[at] <= delivered {
+                                // the blocking connection gives up the keep-alive whose reply it
+                                // could not write (tolerated: 12.2); the async one parks it and
+                                // hands it over once the reply is out
+                                if is_ka(&model.expects[at]) && sc.imp == crate::scenario::Imp::Blocking {
+                                    skip_debt += 1;
                                 }
                             }
                         } else if bad_length_pending(&model, nf, delivered) {
@@ -693,6 +712,7 @@ pub fn analyze(sc: &StreamScenario, out: &StreamOutcome) -> Analysis {
                         if now - op_start_now < TIMEOUT_MS {
                             vio.push(v("read.spurious_timeout", format!("read #{} timed out after only {} simulated ms", facts.results.len(), now - op_start_now)));
                         }
+                        withheld_check(&model, nf, skip_debt, delivered, "Timeout", &mut vio, &mut facts);
                     },
                     AppRes::Disconnected => {
                         facts.reached_disconnected = true;
@@ -700,8 +720,17 @@ pub fn analyze(sc: &StreamScenario, out: &StreamOutcome) -> Analysis {
                         if !eof_seen {
                             vio.push(v("read.disconnected_without_eof", format!("read #{} returned Disconnected but the link never signalled end of stream", facts.results.len())));
                             dead = true;
-                        } else if nf < complete && !bad_length_pending(&model, nf, delivered) && !(pending_skip == Some(nf) && nf + 1 == complete) {
+                        } else if nf < complete && !bad_length_pending(&model, nf, delivered) && !(complete - nf <= skip_debt && (nf..complete).all(|k| is_ka(&model.expects[k]))) {
                             vio.push(v("order.lost_at_eof", format!("Disconnected after {} frame results but {} complete frames were delivered", nf, complete)));
+                            // keep-alives among the frames left behind were received, and are owed a reply
+                            let ka_received = count_le(&model.ka_ends, delivered);
+                            let write_faults = sc.writes.iter().any(|w| matches!(w, WriteEv::Err(_) | WriteEv::Zero));
+                            if !write_faults && !wire_broken && p_off % 4 == 0 && p_off / 4 < ka_received {
+                                vio.push(v(
+                                    "pong.unanswered_at_eof",
+                                    format!("{} keep-alives arrived in full before the stream ended, {} replies on the wire at Disconnected", ka_received, p_off / 4),
+                                ));
+                            }
                             dead = true;
                         }
                     },
@@ -729,6 +758,18 @@ pub fn analyze(sc: &StreamScenario, out: &StreamOutcome) -> Analysis {
             vio.push(v("wire.torn_pong_at_end", format!("session ended with {} bytes of keep-alive replies on the wire (a partial frame)", p_off)));
         } else if p_off / 4 != ka_returned {
             vio.push(v("pong.count_at_end", format!("{} keep-alives handed to the caller, {} replies on the wire", ka_returned, p_off / 4)));
+        } else {
+            // the history of RECEIVED packets is what counts: a keep-alive that arrived in full
+            // before the stream ended has to be answered, handed to the caller or not (where no
+            // reply write was made to fail)
+            let ka_received = count_le(&model.ka_ends, delivered);
+            let write_faults = sc.writes.iter().any(|w| matches!(w, WriteEv::Err(_) | WriteEv::Zero));
+            if !write_faults && p_off / 4 < ka_received {
+                vio.push(v(
+                    "pong.unanswered_at_eof",
+                    format!("{} keep-alives arrived in full before the stream ended, {} replies on the wire at Disconnected", ka_received, p_off / 4),
+                ));
+            }
         }
     }
     if after_rejection && vio_at_rejection < vio.len() {
@@ -781,6 +822,34 @@ fn same_modulo_gate(exp: &Expect, res: &AppRes) -> bool {
         (Expect::BadVersion(_), AppRes::IncompatibleVersion(_)) => true,
         (Expect::Pkt { .. }, AppRes::IncompatibleVersion(_)) => true,
         _ => false,
+    }
+}
+
+/// A read gave up waiting for the link (Timeout / the socket's read timeout) although the next
+/// frame had already arrived in full: the connection sat on a complete frame — and, if that frame
+/// is a keep-alive, on its reply — for the whole waiting time.
+fn is_ka(e: &Expect) -> bool {
+    matches!(e, Expect::Pkt { keepalive: true, .. })
+}
+
+fn withheld_check(model: &Model, nf: usize, skip_debt: usize, delivered: usize, what: &str, vio: &mut Vec<Violation>, facts: &mut Facts) {
+    let mut eff = nf;
+    while eff < nf + skip_debt && eff < model.expects.len() && is_ka(&model.expects[eff]) {
+        eff += 1;
+    }
+    let complete = count_le(&model.ends, delivered);
+    if eff < complete && eff < model.expects.len() {
+        facts.probe("gave_up_with_frame_buffered");
+        vio.push(v(
+            "read.gave_up_with_frame_buffered",
+            format!("read #{} ended with {} although frame {} ({} complete frames had arrived) was already buffered in full", facts.results.len(), what, eff, complete),
+        ));
+        if let Expect::Pkt { keepalive: true, .. } = model.expects[eff] {
+            vio.push(v(
+                "pong.withheld",
+                format!("read #{} ended with {} while keep-alive frame {} sat in the receive buffer, complete and unanswered", facts.results.len(), what, eff),
+            ));
+        }
     }
 }
 
